@@ -152,19 +152,24 @@ def dec : Handler :=
 /-! ### c14.rt -/
 
 structure RtIn where
-  cfg : Cfg
   mtu : UInt16
-  frames : List (List (Nat × Bytes))
+  calls : List RtCall
 
-/-- `<addDONL> <skipAgg> <mtu> <frames> <rx>`; `rx` = 1: every payload of the history was parsed by ONE
-    H265Packet (0: a fresh one per payload).  In both cases the views in the observation are read from
-    the decoded packets the caller kept, after the last payload was parsed.  The parser decodes each
-    payload on its own: the model and the predicate do not depend on `rx`. -/
+/-- `<mtu> <n> (<addDONL> <skipAgg> <units>)* <rx>`: one payloader, before every call the caller sets
+    the exported fields `AddDONL` / `SkipAggregation` to that call's values (constant in most
+    histories); each call's packets are parsed with the DONL setting of that call.  `rx` = 1: every
+    payload of the history was parsed by ONE H265Packet (0: a fresh one per payload).  In both cases
+    the views in the observation are read from the decoded packets the caller kept, after the last
+    payload was parsed.  The parser decodes each payload on its own: the model and the predicate do
+    not depend on `rx`. -/
 def rdRtIn : Rd RtIn := do
-  let a ← Rd.bool; let s ← Rd.bool; let m ← Rd.u16
-  let fr ← Rd.list (Rd.list (do let sc ← Rd.nat; let u ← Rd.bytes; pure (sc, u)))
+  let m ← Rd.u16
+  let cs ← Rd.list (do
+    let a ← Rd.bool; let s ← Rd.bool
+    let f ← Rd.list (do let sc ← Rd.nat; let u ← Rd.bytes; pure (sc, u))
+    pure (({ addDONL := a, skipAgg := s } : Cfg), f))
   let _rx ← Rd.bool
-  pure { cfg := { addDONL := a, skipAgg := s }, mtu := m, frames := fr }
+  pure { mtu := m, calls := cs }
 
 def rdPktObs : Rd C14.PktObs := do
   let p ← Rd.bytes; let r ← rdResParsed; let h ← Rd.bool
@@ -189,11 +194,6 @@ def callOkRelaxed (cfg : Cfg) (units : List Bytes) (o : List C14.PktObs) : Bool 
     (o.zip ps).all (fun (p, v) => encode v.pkt == p.payload && shapeOk cfg.addDONL v.pkt) &&
     depack none (ps.map (·.pkt)) == some units
 
-def rtOkRelaxed (cfg : Cfg) : List (List (Nat × Bytes)) → List (Option (List C14.PktObs)) → Bool
-  | [], [] => true
-  | f :: fs, some o :: os => callOkRelaxed cfg (f.map (·.2)) o && rtOkRelaxed cfg fs os
-  | _, _ => false
-
 theorem callOk_imp_relaxed (cfg : Cfg) (mtu : UInt16) (units : List Bytes) (o : List C14.PktObs) :
     C14.callOk cfg mtu units o = true → callOkRelaxed cfg units o = true := by
   unfold C14.callOk callOkRelaxed
@@ -208,18 +208,23 @@ theorem callOk_imp_relaxed (cfg : Cfg) (mtu : UInt16) (units : List Bytes) (o : 
     simp only at this ⊢
     exact ⟨this.1.1, this.2⟩
 
-/-- the theorems are about `C14.rtOk`; it implies what the driver evaluates -/
-theorem rtOk_imp_relaxed (cfg : Cfg) (mtu : UInt16) (fs : List (List (Nat × Bytes)))
-    (os : List (Option (List C14.PktObs))) :
-    C14.rtOk cfg mtu fs os = true → rtOkRelaxed cfg fs os = true := by
+def rtOkRelaxedF : List RtCall → List (Option (List C14.PktObs)) → Bool
+  | [], [] => true
+  | (cfg, f) :: fs, some o :: os => callOkRelaxed cfg (f.map (·.2)) o && rtOkRelaxedF fs os
+  | _, _ => false
+
+/-- the theorems are about `C14.rtOkF`; it implies what the driver evaluates -/
+theorem rtOkF_imp_relaxed (mtu : UInt16) (fs : List RtCall) (os : List (Option (List C14.PktObs))) :
+    C14.rtOkF mtu fs os = true → rtOkRelaxedF fs os = true := by
   induction fs generalizing os with
-  | nil => cases os <;> simp [C14.rtOk, rtOkRelaxed]
+  | nil => cases os <;> simp [C14.rtOkF, rtOkRelaxedF]
   | cons f fs ih =>
+    obtain ⟨cfg, f⟩ := f
     match os with
-    | [] => simp [C14.rtOk]
-    | none :: _ => simp [C14.rtOk]
+    | [] => simp [C14.rtOkF]
+    | none :: _ => simp [C14.rtOkF]
     | some o :: os =>
-      simp only [C14.rtOk, rtOkRelaxed, Bool.and_eq_true]
+      simp only [C14.rtOkF, rtOkRelaxedF, Bool.and_eq_true]
       exact fun h => ⟨callOk_imp_relaxed _ _ _ _ h.1, ih _ h.2⟩
 
 /-- the recorded defect `c14_donl_fu` undone on the receiving side: a non-first fragmentation unit
@@ -238,23 +243,25 @@ def callExplained (cfg : Cfg) (units : List Bytes) (o : List C14.PktObs) : Bool 
     (o.zip ps).all (fun (p, v) => encode v.pkt == p.payload && shapeOk cfg.addDONL v.pkt) &&
     depack none (ps.map (fun v => stripDonl v.pkt)) == some units
 
-/-- every call is fine as it is or explained by the recorded defect -/
-def rtExplained (cfg : Cfg) : List (List (Nat × Bytes)) → List (Option (List C14.PktObs)) → Bool
+/-- every call is fine as it is or — if it was made with AddDONL — explained by the recorded defect -/
+def rtExplainedF : List RtCall → List (Option (List C14.PktObs)) → Bool
   | [], [] => true
-  | f :: fs, some o :: os =>
-    (callOkRelaxed cfg (f.map (·.2)) o || callExplained cfg (f.map (·.2)) o) && rtExplained cfg fs os
+  | (cfg, f) :: fs, some o :: os =>
+    (callOkRelaxed cfg (f.map (·.2)) o || callExplained cfg (f.map (·.2)) o) && rtExplainedF fs os
   | _, _ => false
 
-/-- `wf` is exactly the hypothesis of `c14_roundtrip` (`rtWF`): outside it nothing is claimed
-    (correspondence only; `rtNoPanic` is evaluated there but does not count) -/
+/-- `wf` is exactly the hypothesis of `c14_rt_flip` (`rtWFF`; on a history with constant options:
+    `rtWF`, the hypothesis of `c14_roundtrip`): outside it nothing is claimed (correspondence only;
+    `rtNoPanic` is evaluated there but does not count) -/
 def rt : Handler :=
-  mkHandler rdRtIn rdRtObs (fun i => rtObs i.cfg i.mtu i.frames)
-    (fun i o => if rtWF i.cfg i.mtu i.frames then rtOkRelaxed i.cfg i.frames o else C14.rtNoPanic o)
-    (fun i => rtWF i.cfg i.mtu i.frames)
-    (fun i _ => if rtKF i.cfg i.mtu i.frames then some "c14_donl_fu" else none)
+  mkHandler rdRtIn rdRtObs (fun i => rtObsF i.mtu 0 i.calls)
+    (fun i o => if rtWFF i.mtu i.calls then rtOkRelaxedF i.calls o else C14.rtNoPanic o)
+    (fun i => rtWFF i.mtu i.calls)
+    (fun i _ => if rtKFF i.mtu 0 i.calls then some "c14_donl_fu" else none)
     -- a failure inside the region counts as the KNOWN finding also when the bytes differ from the
-    -- model's (other cut points, …), as long as undoing the recorded defect makes the predicate hold
-    (fun i o => rtWF i.cfg i.mtu i.frames && rtExplained i.cfg i.frames o)
+    -- model's (other cut points, …), as long as undoing the recorded defect makes the predicate hold;
+    -- a call made without AddDONL is never excused
+    (fun i o => rtWFF i.mtu i.calls && rtExplainedF i.calls o)
 
 /-! ### c08.h265 -/
 
